@@ -252,6 +252,54 @@ func drawPlaintext(t *rapid.T) []byte {
 	return gen.Bytes(t, "pt", max)
 }
 
+// drawInfo draws the context info: nil / empty / up to 128 bytes as a rule, and at low weight the
+// lengths around one length byte and two "large" ones (a whole 64 KiB is still an ordinary byte
+// string to RFC 9180's LabeledExtract and to HKDF's info parameter).
+func drawInfo(t *rapid.T) []byte {
+	if rapid.IntRange(0, 19).Draw(t, "info_long") == 0 {
+		n := rapid.SampledFrom([]int{255, 256, 257, 255, 256, 257, 1000, 1000, 65536}).Draw(t, "info_longlen")
+		return gen.BytesN(t, "info", n)
+	}
+	return gen.BytesOrNil(t, "info", 128)
+}
+
+// reuseAfterRejects uses the encrypting and the decrypting object once more after the decrypting
+// object has refused the whole candidate list: the genuine ciphertexts (Tink's ct, the
+// reference's rct) still decrypt, and two further Encrypt calls with identical (pt, info) each give
+// a ciphertext that the independent implementation opens and the object decrypts - as does the
+// first one after the second was made. refOpen gets the complete ciphertext (prefix included).
+// Whether the two ciphertexts differ is C20's clause, not C06's: it is counted, not asserted.
+func reuseAfterRejects(t *rapid.T, desc func() string, enc tink.HybridEncrypt, dec tink.HybridDecrypt, ct, rct, pt, info []byte, refOpen func(ct []byte) ([]byte, error)) {
+	for i, g := range [][]byte{ct, rct} {
+		if got, err := dec.Decrypt(g, info); err != nil || !bytes.Equal(got, pt) {
+			t.Fatalf("%s\nafter the decrypting object refused the candidates, the genuine ciphertext %s (%s) no longer decrypts: %s, %v", desc(), fullHex(g), []string{"made by Tink", "made by the reference"}[i], fullHex(got), err)
+		}
+	}
+	var made [][]byte
+	for i := 0; i < 2; i++ {
+		c2, err := enc.Encrypt(pt, info)
+		if err != nil {
+			t.Fatalf("%s\nEncrypt #%d with the same (pt, info) on the same object failed: %v", desc(), i+2, err)
+		}
+		made = append(made, c2)
+		if got, err := refOpen(c2); err != nil || !bytes.Equal(got, pt) {
+			t.Fatalf("%s\nthe independent implementation cannot open ciphertext #%d of the same object for the same (pt, info), %s: %s, %v", desc(), i+2, fullHex(c2), fullHex(got), err)
+		}
+		for j, m := range made {
+			if got, err := dec.Decrypt(m, info); err != nil || !bytes.Equal(got, pt) {
+				t.Fatalf("%s\nafter Encrypt #%d, ciphertext #%d (%s) of the same object does not decrypt: %s, %v", desc(), i+2, j+2, fullHex(m), fullHex(got), err)
+			}
+		}
+	}
+	if got, err := dec.Decrypt(ct, info); err != nil || !bytes.Equal(got, pt) {
+		t.Fatalf("%s\nthe first ciphertext %s no longer decrypts after two more Encrypt calls on the same object: %s, %v", desc(), fullHex(ct), fullHex(got), err)
+	}
+	if bytes.Equal(made[0], made[1]) || bytes.Equal(made[0], ct) {
+		evid.Add("repeated_encrypt_same_output", 1)
+	}
+	evid.Add("reuse_after_rejects", 1)
+}
+
 func infoClass(info []byte) string {
 	switch {
 	case info == nil:
